@@ -2,6 +2,7 @@ package main
 
 import (
 	"fmt"
+	"os"
 	"go/token"
 	"go/types"
 	"math/big"
@@ -61,6 +62,9 @@ func cellAlloc(a *ssa.Alloc) bool {
 			case *ssa.Slice:
 				return false
 			default:
+				if os.Getenv("VERIF_DEBUG_CELL") != "" {
+					fmt.Fprintf(os.Stderr, "cellAlloc %s (%s): referrer %T %s\n", a.Name(), a.Comment, r, r)
+				}
 				return false
 			}
 		}
@@ -75,6 +79,9 @@ func closureIsLoggingOnly(mc *ssa.MakeClosure) bool {
 		return true
 	}
 	for _, r := range *refs {
+		if _, dbg := r.(*ssa.DebugRef); dbg {
+			continue
+		}
 		c, ok := r.(*ssa.Call)
 		if !ok {
 			return false
@@ -99,6 +106,9 @@ func (vc *VC) execInstr(fr *Frame, st *State, pc string, in ssa.Instruction) {
 			return
 		}
 		r := vc.newRef(st, pc)
+		if os.Getenv("VERIF_DEBUG_CELL") != "" {
+			fmt.Fprintf(os.Stderr, "heapAlloc %s in %s: %s (%s) -> %s\n", t.Name(), t.Parent().Name(), et, t.Comment, r)
+		}
 		switch u := et.Underlying().(type) {
 		case *types.Struct:
 			vc.storeStruct(st, et, r, vc.zeroOf(et))
